@@ -20,8 +20,8 @@ COQ_CASE_TYPE = "TcpSock.case"
 COQ_BRANCHES = ("TcpSock.case_branches", "TcpSock.n_branches")
 SHARD = 150
 RULE = ("event sequences over a plain or TLS tcp Server (reopen incl. failing bind / serviceAccepts / serviceAxes / "
-        "serviceCxes / serviceConnects with batches of accepted connections from 4 peer addresses, each with a "
-        "malformed flag and a TLS handshake script (WANT_READ / WANT_WRITE / ok / SSL EOF / other SSLError / OSError ECONNABORTED / ECONNRESET / ETIMEDOUT / EPIPE / non-OSError exception); receive outcomes "
+        "serviceCxes / serviceConnects with batches of accepted connections from 4 peer addresses, each fine / "
+        "malformed / already reset by the peer (getpeername raises ENOTCONN or ECONNABORTED), and with a TLS handshake script (WANT_READ / WANT_WRITE / ok / SSL EOF / other SSLError / OSError ECONNABORTED / ECONNRESET / ETIMEDOUT / EPIPE / non-OSError exception); receive outcomes "
         "data/eof/reset/unexpected error; removeIx / closeIx / close) and over a plain or TLS Client (open / reopen / "
         "close / accept and serviceConnect with connect_ex outcomes ok/in-progress/refused/raise, timer expiry, TLS "
         "handshake outcomes); a case is non-trivial when at least one socket is held outside `ixes` (pending "
@@ -107,6 +107,9 @@ class FakeSock:
         return self.core.name
 
     def getpeername(self):
+        if self.core.badpeer == "gone":      # reset by the peer before the server looked at it
+            e = _errno.ENOTCONN if self.core.id % 2 else _errno.ECONNABORTED
+            raise OSError(e, "Transport endpoint is not connected" if self.core.id % 2 else "Software caused connection abort")
         if self.core.badpeer:
             return ("192.0.2.99", 9)
         return self.core.peer
@@ -264,6 +267,14 @@ def directed():
                                    ["recv", 0, "err"], ["axes", [C(2)]], ["close"]]},
         # D11 witness (plain): the replaced connection must be closed by close
         {"kind": "server", "evs": [["reopen", False], ["axes", [C(0)]], ["axes", [C(0)]], ["close"]]},
+        # accepted socket already reset by the peer when serviceAxes looks at it (getpeername raises): closed and
+        # skipped, the rest of the batch is serviced (seeded change C11-9 witness: TLS)
+        {"kind": "server", "evs": [["reopen", False], ["axes", [C(0), C(1, "gone"), C(2)]], ["connects", [C(1, "gone")]],
+                                   ["close"]]},
+        {"kind": "tls", "evs": [["reopen", False], ["axes", [C(0, False, ["ok"]), C(1, "gone", ["ok"]), C(2, False, ["want"])]],
+                                ["cxes"], ["connects", [C(0, "gone"), C(3, "gone")]], ["close"]]},
+        {"kind": "tls", "evs": [["reopen", False], ["accepts", [C(2, "gone")]], ["close"], ["reopen", False],
+                                ["connects", [C(2, "gone"), C(2, True), C(1, "gone")]], ["axes", []], ["close"]]},
         # malformed accepted socket and queued axes
         {"kind": "server", "evs": [["reopen", False], ["axes", [C(0), C(1, True), C(2)]], ["close"]]},
         {"kind": "server", "evs": [["reopen", False], ["accepts", [C(0), C(1)]], ["close"], ["reopen", False],
@@ -312,7 +323,7 @@ def _gen_conns(rng, tls):
     out = []
     for _ in range(rng.choice([0, 1, 1, 1, 2, 2, 3])):
         k = rng.randrange(rng.choice([2, NCA]))
-        bad = rng.random() < 0.06
+        bad = rng.choices([False, True, "gone"], [0.84, 0.06, 0.10])[0]
         hs = []
         if tls:
             n = rng.choice([0, 1, 1, 2, 3])
@@ -545,11 +556,12 @@ def nontrivial(case, obs):
 
 def _conn(c):
     k, bad, hs = c
-    return "(%s, %s, %s)" % (coq_N(k), coq_bool(bad), coq_list(["TcpSock.H" + h.capitalize() for h in hs], "TcpSock.hs"))
+    kind = "TcpSock.AGone" if bad == "gone" else ("TcpSock.ABad" if bad else "TcpSock.AOk")
+    return "(%s, %s, %s)" % (coq_N(k), kind, coq_list(["TcpSock.H" + h.capitalize() for h in hs], "TcpSock.hs"))
 
 
 def _conns(cs):
-    return coq_list([_conn(c) for c in cs], "N * bool * list TcpSock.hs")
+    return coq_list([_conn(c) for c in cs], "N * TcpSock.ak * list TcpSock.hs")
 
 
 def _sev(ev):
@@ -654,6 +666,14 @@ def _real_round(tls, rng, see_reset=None):
     kw = dict(host="127.0.0.1", port=port)
     srv = serving.ServerTls(certify=_ssl.CERT_NONE, **kw) if tls else serving.Server(**kw)
     kept, clients = {}, []
+    accept0 = srv.accept
+
+    def accept():      # keep every socket object the kernel hands to the server, also those it never registers
+        cs, ca = accept0()
+        if cs is not None:
+            kept[id(cs)] = cs
+        return cs, ca
+    srv.accept = accept
 
     def keep():
         for d in ([srv.ixes] + ([srv.cxes] if tls else [])):
@@ -682,6 +702,14 @@ def _real_round(tls, rng, see_reset=None):
         n_plain = rng.randint(1, 3)
         for _ in range(n_plain):
             connect()
+        service()
+        # a client that resets its connection before the server gets to service the accept
+        for _ in range(rng.randint(1, 2)):
+            c = connect()
+            c.setsockopt(_socket.SOL_SOCKET, _socket.SO_LINGER, __import__("struct").pack("ii", 1, 0))
+            c.close()
+            clients.remove(c)
+        time.sleep(0.005)
         service()
         # a client on a fixed local port resets its connection and connects again from the same address
         lport = _free_port()
